@@ -58,9 +58,19 @@ func userFunctionCallRuleSSA(r *Run) {
 	}
 	var evalCalls, setCalls []*ssa.Call
 	seenE, seenS := map[*ssa.Call]bool{}, map[*ssa.Call]bool{}
+	firstSetDirect := -1
 	bad := ""
 	for _, p := range paths {
 		lastEval, install, firstSet := -1, -1, -1
+		// the scope this path installs (the value stored into the evaluator's scope field first)
+		var installed ssa.Value
+		for _, ev := range p.events {
+			if st, ok := ev.(*ssa.Store); ok && installed == nil {
+				if fa, ok := st.Addr.(*ssa.FieldAddr); ok && fa.Field == ctxIdx && w.isCompilerValue(fa.X) {
+					installed = p.resolve(st.Val)
+				}
+			}
+		}
 		for i, ev := range p.events {
 			switch x := ev.(type) {
 			case *ssa.Call:
@@ -69,6 +79,16 @@ func userFunctionCallRuleSSA(r *Run) {
 					if !seenE[origCall(x)] {
 						seenE[origCall(x)] = true
 						evalCalls = append(evalCalls, x)
+					}
+				}
+				// a parameter bound on the new scope itself before it is installed lands where it should
+				if x.Call.IsInvoke() && x.Call.Method.Name() == "Set" && installed != nil && !isCtxLoad(x.Call.Value) && p.resolve(x.Call.Value) == installed {
+					if lastEval >= 0 && firstSetDirect < 0 {
+						firstSetDirect = i
+					}
+					if !seenS[origCall(x)] {
+						seenS[origCall(x)] = true
+						setCalls = append(setCalls, x)
 					}
 				}
 				if x.Call.IsInvoke() && x.Call.Method.Name() == "Set" && isCtxLoad(x.Call.Value) {
@@ -94,6 +114,7 @@ func userFunctionCallRuleSSA(r *Run) {
 		if lastEval >= 0 && firstSet >= 0 && lastEval > firstSet {
 			bad = "it happens after a parameter was bound"
 		}
+		_ = firstSetDirect // (bindings on a scope that is not yet installed cannot be seen by a later argument evaluation)
 		if firstSet >= 0 && install >= 0 && firstSet < install {
 			bad = "a parameter is bound before the function's own scope is installed (it lands in the caller's scope)"
 		}
